@@ -193,11 +193,9 @@ func (stack *Stack) TruncateToSize(newsize int) {
 	if newsize < 0 {
 		newsize = 0
 	}
-	if newsize > len(stack.elements) {
-		el := make([]StackElem, newsize)
-		copy(el, stack.elements)
-		stack.elements = el
-		stack.tos = newsize - 1
+	if newsize >= len(stack.elements) {
+		// nothing to drop. (Growing the stack here would fill it
+		// with nil elements that no Pop can digest.)
 		return
 	}
 	for i := newsize; i < len(stack.elements); i++ {
